@@ -40,12 +40,12 @@ def _lib():
 SCALAR_KINDS = ["int", "str", "float", "optint", "union", "lit", "bounded", "validated"]
 # only used by profiles that ask for them: module-bearing payloads; a list whose items are Optional[spec class]
 # (the element type is then not "a spec class" for the library's purposes)
-EXTRA_KINDS = ["any", "list_optleaf"]
+EXTRA_KINDS = ["any", "list_optleaf", "list_optint"]
 PLAIN_COLL_KINDS = ["list_int", "dict_int", "set_int"]
 SPEC_KINDS = ["leaf"]
 SPEC_COLL_KINDS = ["list_leaf", "dict_leaf", "list_kitem", "dict_kitem", "klist", "kset"]
 ALL_KINDS = SCALAR_KINDS + PLAIN_COLL_KINDS + SPEC_KINDS + SPEC_COLL_KINDS
-COLL_KINDS = PLAIN_COLL_KINDS + SPEC_COLL_KINDS + ["list_optleaf"]
+COLL_KINDS = PLAIN_COLL_KINDS + SPEC_COLL_KINDS + ["list_optleaf", "list_optint"]
 
 KIND_NAMES = {
     "int": ["count", "size"],
@@ -68,16 +68,17 @@ KIND_NAMES = {
     "kset": ["members"],
     "any": ["payload", "extra"],
     "list_optleaf": ["slots"],
+    "list_optint": ["opts"],
 }
 
 FAMILY = {
-    "list_int": "seq", "list_leaf": "seq", "list_kitem": "seq", "klist": "seq", "list_optleaf": "seq",
+    "list_int": "seq", "list_leaf": "seq", "list_kitem": "seq", "klist": "seq", "list_optleaf": "seq", "list_optint": "seq",
     "dict_int": "map", "dict_leaf": "map", "dict_kitem": "map",
     "set_int": "set", "kset": "set",
 }
 ITEM_KIND = {
     "list_int": "int", "dict_int": "int", "set_int": "int",
-    "list_leaf": "leaf", "dict_leaf": "leaf", "list_optleaf": "leaf",
+    "list_leaf": "leaf", "dict_leaf": "leaf", "list_optleaf": "leaf", "list_optint": "optint",
     "list_kitem": "kitem", "dict_kitem": "kitem", "klist": "kitem", "kset": "kitem",
 }
 
@@ -143,6 +144,7 @@ GOOD_FNS = {
     "bounded": ["inc", "zero", "ident", "dbl"],
     "validated": ["dbl", "zero", "ident", "two"],
     "list_int": ["rev", "app9", "empty_list", "ident"],
+    "list_optint": ["rev", "app9", "empty_list", "ident"],
     "dict_int": ["withz", "empty_dict", "ident"],
     "set_int": ["add9", "empty_set", "ident"],
     "leaf": ["leaf_bump", "leaf_q", "ident"],
@@ -159,6 +161,7 @@ BAD_FNS = {
     "bounded": ["neg_one", "tostr"],
     "validated": ["inc_odd", "tostr"],
     "list_int": ["app_s", "zero"],
+    "list_optint": ["app_s", "zero"],
     "dict_int": ["with_badval", "with_badkey", "zero"],
     "set_int": ["add_s", "zero"],
     "leaf": ["zero", "none"],
@@ -174,11 +177,17 @@ PREPARERS = {
     "strip": lambda self, v: v.strip() if isinstance(v, str) else v,
     "tup2list": lambda self, v: list(v) if isinstance(v, tuple) else v,
     "str2int": lambda self, v: int(v) if isinstance(v, str) and v.lstrip("-").isdigit() else v,
+    # the "lookup table" use of a preparer: a name is resolved to an object the instance already holds elsewhere
+    # (the other nested attribute: leaf <-> twig); anything else passes through
+    "lookup_leaf": lambda self, v: (self.__dict__.get("twig", v) if v == "@peer" else v),
+    "lookup_twig": lambda self, v: (self.__dict__.get("leaf", v) if v == "@peer" else v),
 }
 ITEM_PREPARERS = {
     "ident": lambda self, v: v,
     "dbl": lambda self, v: v * 2 if isinstance(v, int) and not isinstance(v, bool) else v,
     "str2int": lambda self, v: int(v) if isinstance(v, str) and v.lstrip("-").isdigit() else v,
+    # keyed elements: a numeric id is turned into the element's key (so the preparer decides whether what came in is a key)
+    "id2key": lambda self, v: f"k{v}" if isinstance(v, int) and not isinstance(v, bool) else v,
 }
 FACTORIES = {}  # filled by default valrefs: factory returns build(valref)
 
@@ -218,6 +227,7 @@ DEFAULT_PROFILE = {
     "allow_foreign_defaults": False,
     "allow_leaf_inv": False,
     "allow_post_init_keep": False,
+    "allow_lookup_preparer": False,
     "allow_two_levels": True,
 }
 
@@ -274,18 +284,22 @@ def gen_class_spec(src, profile=None):
             a["flags"]["repr"] = False
         if src.chance(0.08):
             a["flags"]["compare"] = False
-        if p["allow_preparers"] and src.chance(0.15):
+        if p["allow_preparers"] and src.chance(0.5 if (kind == "leaf" and p["allow_lookup_preparer"]) else 0.15):
             if kind in ("int", "bounded"):
                 a["prepare"] = src.choice(["ident", "abs", "str2int"])
             elif kind == "str":
                 a["prepare"] = src.choice(["ident", "strip"])
             elif kind == "list_int":
                 a["prepare"] = src.choice(["ident", "tup2list"])
+            elif kind == "leaf" and p["allow_lookup_preparer"] and src.chance(0.7):
+                a["prepare"] = "lookup_" + name  # (attribute names of this kind are leaf / twig)
             else:
                 a["prepare"] = "ident"
         if p["allow_item_preparers"] and kind in COLL_KINDS and src.chance(0.2):
             if ITEM_KIND[kind] == "int":
                 a["prepare_item"] = src.choice(["ident", "dbl", "str2int"])
+            elif ITEM_KIND[kind] == "kitem":
+                a["prepare_item"] = src.choice(["ident", "id2key", "id2key"])
             else:
                 a["prepare_item"] = "ident"
         if kind == "any":
@@ -296,6 +310,13 @@ def gen_class_spec(src, profile=None):
             elif a["default"][0] == "lit" and a["flags"]:
                 a["default"][0] = "factory"
         attrs.append(a)
+    for a in list(attrs):
+        if str(a.get("prepare", "")).startswith("lookup_"):
+            peer = "twig" if a["name"] == "leaf" else "leaf"
+            if peer not in used:
+                # the object the lookup resolves to lives in the sibling nested attribute: make sure there is one
+                used.add(peer)
+                attrs.append({"name": peer, "kind": "leaf", "default": ["lit", good_value(src, "leaf", small=True)], "flags": {}})
     names = [a["name"] for a in attrs]
     if p["allow_invalidated_by"] and len(attrs) >= 2:
         for pos, a in enumerate(attrs):
@@ -317,7 +338,7 @@ def gen_class_spec(src, profile=None):
         host["options"]["frozen"] = True
     if p["allow_class_dnc"] and src.chance(0.1):
         host["options"]["do_not_copy"] = True
-    elif p["allow_attr_dnc"] and src.chance(0.1) and names:
+    elif p["allow_attr_dnc"] and src.chance(0.2) and names:
         host["options"]["do_not_copy"] = [src.choice(names)]
     host["options"]["bootstrap"] = not src.chance(p["p_lazy"])
     if p["allow_props"] and src.chance(0.5):
@@ -337,6 +358,9 @@ def gen_class_spec(src, profile=None):
                 host["props"][-1]["returns"] = src.choice(["summary", "fresh", "alias"])
     if p["allow_hooks"]:
         host["post_init"] = src.chance(0.2)
+        if p["allow_mutable_props"] and src.chance(0.5):
+            host["post_init"] = host["post_init"] or True
+            host["post_init_scratch"] = True
         if p["allow_post_init_keep"] and src.chance(0.3):
             # __post_init__ keeps a copy of the instance under construction, made by one of the routes that copy
             host["post_init"] = "keep"
@@ -387,7 +411,7 @@ def gen_class_spec(src, profile=None):
             # ... or differing from the parent's by one attribute: the subclass's own declaration then decides for its
             # instances, and the parent's instances keep the parent's (Attr-flagged attributes stay in both lists)
             if p["allow_attr_dnc"] and host["options"].get("do_not_copy") is not True:
-                mode = src.choice(["same", "same", "add_one", "drop_one"])
+                mode = src.choice(["same", "add_one", "drop_one"])
                 flagged = {a["name"] for a in attrs if a.get("flags", {}).get("do_not_copy")}
                 touched = {e["name"] for e in sub["redeclare"] + sub["redefault"]}
                 if mode == "add_one":
@@ -395,10 +419,13 @@ def gen_class_spec(src, profile=None):
                     if cands:
                         dnc = dnc + [src.choice(cands)]
                 elif mode == "drop_one":
-                    cands = [n2 for n2 in dnc if n2 not in flagged and n2 not in touched]
+                    # (an Attr(do_not_copy=True) flag of the parent can be dropped as well: the subclass's decorator decides)
+                    cands = [n2 for n2 in dnc if n2 not in touched]
                     if cands:
                         x = src.choice(cands)
                         dnc = [n2 for n2 in dnc if n2 != x]
+                        if x in flagged:
+                            sub["dnc_dropped"] = [x]
             if dnc:
                 sub["options"]["do_not_copy"] = dnc
         if p["allow_two_levels"] and src.chance(0.35):
@@ -483,6 +510,8 @@ def good_value(src, kind, small=False):
                 [good_value(src, "leaf") for _ in range(src.randint(0, 2 if small else 3))]]
     if kind == "list_optleaf":
         return ["list", [None if src.chance(0.2) else good_value(src, "leaf") for _ in range(src.randint(0, 2 if small else 3))]]
+    if kind == "list_optint":
+        return ["list", [src.choice([0, 1, 2, None, None, 3]) for _ in range(src.randint(0, 2 if small else 4))]]
     if kind == "dict_leaf":
         keys = src.sample(["a", "b", "c", ""], src.randint(0, 2 if small else 3))
         return ["dict", [[k, good_value(src, "leaf")] for k in keys]]
@@ -540,6 +569,8 @@ def bad_values(kind):
         return [["list", [["leaf", {}], 3]], 5, ["list", [["kitem", {"k": "a"}]]]]
     if kind == "list_optleaf":
         return [["list", [["leaf", {}], 3]], 5, ["list", [["kitem", {"k": "a"}]]]]
+    if kind == "list_optint":
+        return [["list", [1, "s"]], 5, ["list", [["list", [1]]]], ["dict", [["a", 1]]]]
     if kind == "dict_leaf":
         return [["dict", [["a", 3]]], ["dict", [[1, ["leaf", {}]]]], 5]
     if kind == "list_kitem":
@@ -558,6 +589,8 @@ def bad_values(kind):
 def bad_items(item_kind):
     if item_kind == "int":
         return ["s", None, ["float", "0.5"], ["list", [1]]]
+    if item_kind == "optint":
+        return ["s", ["float", "0.5"], ["list", [1]]]
     if item_kind == "leaf":
         return [3, None, ["kitem", {"k": "a"}]]
     if item_kind == "kitem":
@@ -627,6 +660,8 @@ def annotation_for(kind, classes, faults):
         return List[Leaf]
     if kind == "list_optleaf":
         return List[Optional[Leaf]]
+    if kind == "list_optint":
+        return List[Optional[int]]
     if kind == "dict_leaf":
         return Dict[str, Leaf]
     if kind == "list_kitem":
@@ -881,8 +916,13 @@ def materialise(spec, faults, name_suffix=""):
         route = h.get("post_init_route") if h.get("post_init") == "keep" else None
         first_attr = h["attrs"][0]["name"] if h["attrs"] else None
 
+        scratch = bool(h.get("post_init_scratch"))
+
         def post_init(self):
             faults.hit("post_init:host")
+            if scratch:
+                # unmanaged instance state set up by __post_init__ (a mutable object no Attr describes)
+                self.__dict__["scratch_"] = [self.__class__.__name__]
             if route is None:
                 return
             import copy as _copy
@@ -948,6 +988,8 @@ def materialise(spec, faults, name_suffix=""):
         sns = {"__module__": "specsim.generated", "__qualname__": "Sub" + name_suffix}
         sinfo = {k: dict(v) for k, v in info.items()}
         sann = {}
+        for x in sub.get("dnc_dropped", []):
+            sinfo[x]["flags"] = {k: v for k, v in sinfo[x].get("flags", {}).items() if k != "do_not_copy"}
         Parent = Host
         via = sub.get("via")
         if via:
